@@ -231,7 +231,8 @@ def judge_single(base: restart.CaseResult, r: restart.CaseResult, k: int, out: O
         have = set(entered(r, 0)) | set(entered(r, 1))
         missing = [e for e in set(entered(base, 0)) if e not in have]
         if missing:
-            out.violations.append(Violation(f"C13/invocation_missing_after_{loss}" if loss else "C13/invocation_missing",
+            # e.g. the run is ended by the workflow timeout either way, but the lost event's consumer never ran
+            out.violations.append(Violation(f"C13/stuck_after_{loss}" if loss else "C13/invocation_missing",
                                             f"same outcome {want[0]}, but invocations {sorted(missing)[:4]} of the uninterrupted run never happened; volatile at the stop: {r.phases[0].volatile}", payload))
             return "invocation_missing" + (":" + loss if loss else "")
         return "resumed_ok" + (":" + loss if loss else "")
@@ -641,27 +642,26 @@ def load_witnesses() -> list[dict]:
     return []
 
 
+class _FixedInts(random.Random):
+    """a `random.Random` whose randint answers come from a list (to re-judge one exact double stop)"""
+
+    def __init__(self, seq: list[int]):
+        super().__init__(0)
+        self.seq = list(seq)
+
+    def randint(self, a: int, b: int) -> int:  # type: ignore[override]
+        return self.seq.pop(0) if self.seq else a
+
+
 def replay_case(case: dict, out: Outcome, ops: list[str], exp: list[str], owner: list) -> None:
-    if "crash" in case:
-        c = case["crash"]
-        spec, seed, kind, ks = c["spec"], c["seed"], c["kind"], list(c["crash_at"])
-        base = restart.run_crash_case(copy.deepcopy(spec), seed, kind, horizon=HORIZON)
-        if len(ks) <= 1:
-            all_prefixes(spec, seed, kind, out, ops, exp, owner, "replay", only=ks or None)
-        else:
-            # re-judge a double stop exactly
-            rng = random.Random(0)
-
-            class _Fixed(random.Random):
-                def __init__(self, seq: list[int]):
-                    super().__init__(0)
-                    self.seq = list(seq)
-
-                def randint(self, a: int, b: int) -> int:  # type: ignore[override]
-                    return self.seq.pop(0) if self.seq else a
-
-            second_restarts(spec, seed, kind, _Fixed(ks), 1, out, ops, exp, owner)
-        _ = base, rng
+    if "crash" not in case:
+        return
+    c = case["crash"]
+    spec, seed, kind, ks = c["spec"], c["seed"], c["kind"], list(c["crash_at"])
+    if len(ks) <= 1:
+        all_prefixes(spec, seed, kind, out, ops, exp, owner, "replay", only=ks or None)
+    else:
+        second_restarts(spec, seed, kind, _FixedInts(ks), 1, out, ops, exp, owner)
 
 
 def run(env: Env) -> Outcome:
